@@ -274,7 +274,8 @@ func RunC10(env *Env, rep *Report) {
 		}
 		cases = append(cases, c10Case([][]string{a, a}, true, ""))
 	}
-	cases = append(cases, c10PoryswitchCase(true), c10PoryswitchCase(false), c10SwitchBodyCase())
+	cases = append(cases, c10PoryswitchCase(true), c10PoryswitchCase(false), c10PoryswitchCaseOrder(true, true), c10PoryswitchCaseOrder(false, true), c10SwitchBodyCase(),
+		c10UnreachableStretchCase("after-infinite-loop"), c10UnreachableStretchCase("after-leaving-ifelse"), c10UnreachableStretchCase("after-break-in-loop"))
 	rep.Technique = "symbolic execution of the real command parser and renderer (go/ssa) with symbolic token literals; rope equalities between output lines and the token-wise reference, aliasing with constant names decided by the solver (z3)"
 	rep.Explanation = "Bounded symbolic verification, not a proof. Every argument token list up to the length bound over {identifier, number, keyword, operator, '(', ')', ','} with balanced parentheses and non-empty arguments (plus the no-parenthesis form, empty parentheses, several commands in a row, the label look-alikes, every keyword spelling of the lexer as an argument token, and a stretch with 'end' / 'return' in the middle, whose later commands must still all be emitted) is compiled by symbolic execution of the real code with all identifier and number tokens symbolic. Each output line must equal, as a rope and hence for every name and number, the reference rendering: tab, the unchanged command name, the argument tokens in order joined by single spaces with ', ' at every comma; lines in source order. With a constant defined, whether an identifier token equals the constant's name is a solver-decided fork (every aliasing pattern is explored) and the reference substitutes the constant's value exactly there."
 	rep.Bounds = map[string]interface{}{"max_tokens_per_argument_list": maxTok, "token_lists": len(lists), "cases": len(cases), "const_aliasing": "lists of up to 3 tokens with one constant definition", "commands_in_a_row": "up to 3, lists of up to 2 tokens"}
@@ -305,7 +306,11 @@ func RunC10(env *Env, rep *Report) {
 // c10PoryswitchCase: commands with inline text / moves() inside a poryswitch
 // case (selected by name, or the '_' fallback) reach the output with their
 // label arguments.
-func c10PoryswitchCase(fallback bool) *Case {
+func c10PoryswitchCase(fallback bool) *Case { return c10PoryswitchCaseOrder(fallback, false) }
+
+// c10PoryswitchCaseOrder: with fallbackFirst the '_' case is written before
+// the named one.
+func c10PoryswitchCaseOrder(fallback, fallbackFirst bool) *Case {
 	atoms := &AtomTable{Coded: true}
 	sname := atoms.New(ClsUserName, "script", "names")
 	key := atoms.New(ClsIdent, "swkey", "")
@@ -317,11 +322,16 @@ func c10PoryswitchCase(fallback bool) *Case {
 	if fallback {
 		named = other
 	}
-	src := fmt.Sprintf("script %s {\n  poryswitch(%s) {\n    %s: %s(\"named$\", %s)\n    _ {\n      %s(%s, \"fallback$\")\n      %s(moves(walk_up))\n    }\n  }\n}",
-		sname.Placeholder(), key.Placeholder(), named.Placeholder(), c1.Placeholder(), arg.Placeholder(), c2.Placeholder(), arg.Placeholder(), c3.Placeholder())
+	namedCase := fmt.Sprintf("    %s: %s(\"named$\", %s)\n", named.Placeholder(), c1.Placeholder(), arg.Placeholder())
+	fallbackCase := fmt.Sprintf("    _ {\n      %s(%s, \"fallback$\")\n      %s(moves(walk_up))\n    }\n", c2.Placeholder(), arg.Placeholder(), c3.Placeholder())
+	cases := namedCase + fallbackCase
+	if fallbackFirst {
+		cases = fallbackCase + namedCase
+	}
+	src := fmt.Sprintf("script %s {\n  poryswitch(%s) {\n%s  }\n}", sname.Placeholder(), key.Placeholder(), cases)
 	prog := &Program{Atoms: atoms, Tops: []interface{}{&TopRaw{Text: src}}}
 	variants := []Variant{{Name: "opt", Opt: CompileOpts{Optimize: true, SwKeys: []Tok{A(key)}, SwVals: []Tok{A(val)}}}}
-	cs := &Case{Name: fmt.Sprintf("c10/poryswitch/fallback=%v", fallback), Prog: prog, Variants: variants, NonTrivial: true, Shape: c10Shape{Cmds: []string{"poryswitch"}}, MaxPaths: 64}
+	cs := &Case{Name: fmt.Sprintf("c10/poryswitch/fallback=%v/fallbackFirst=%v", fallback, fallbackFirst), Prog: prog, Variants: variants, NonTrivial: true, Shape: c10Shape{Cmds: []string{"poryswitch"}}, MaxPaths: 64}
 	cs.Oracle = func(x *OracleCtx) *Violation {
 		res := x.Res["opt"]
 		if res.Err.IsErr || res.Err.Panic != "" {
@@ -336,6 +346,73 @@ func c10PoryswitchCase(fallback bool) *Case {
 			want = []interp.Value{cat(sname.Val, "::"), cat("\t", c1.Val, " ", lbl("_Text_0"), ", ", arg.Val), "\treturn", cat(lbl("_Text_0"), ":"), "\t.string \"named$\""}
 		}
 		return expectLines(x, "verbatim", "output", nonBlank(outputLines(res.Out, false)), want)
+	}
+	return cs
+}
+
+// c10UnreachableStretchCase: a straight-line stretch that no generated jump
+// reaches - after an infinite loop, or after an if/else whose branches both
+// leave - and that is entered through a user label. Its commands must be
+// emitted once, contiguous and in order, under both -optimize settings.
+func c10UnreachableStretchCase(kind string) *Case {
+	atoms := &AtomTable{Coded: true}
+	sname := atoms.New(ClsUserName, "script", "names")
+	lbl := atoms.New(ClsUserName, "lbl", "names")
+	cmd := func() *Cmd { return &Cmd{Name: A(atoms.New(ClsPlainCmd, "cmd", "cmds"))} }
+	flag := func() *Expr { return LeafFlag(atoms.New(ClsIdent, "flag", "")) }
+	gotoL := &Cmd{Name: L("goto"), Args: [][]Tok{{A(lbl)}}}
+	a, b, c, d := cmd(), cmd(), cmd(), cmd()
+	var body []Stmt
+	var others []*Cmd
+	switch kind {
+	case "after-infinite-loop":
+		body = []Stmt{&While{Body: []Stmt{a, &If{Conds: []*Expr{flag()}, Bodies: [][]Stmt{{gotoL}}}}}, b, &Label{Name: lbl}, c, d, &Cmd{Name: L("end")}}
+		others = []*Cmd{a}
+	case "after-leaving-ifelse":
+		e := cmd()
+		body = []Stmt{&If{Conds: []*Expr{flag()}, Bodies: [][]Stmt{{a, gotoL}}, Else: []Stmt{e, &Cmd{Name: L("end")}}, HasElse: true}, b, &Label{Name: lbl}, c, d, &Cmd{Name: L("end")}}
+		others = []*Cmd{a, e}
+	case "after-break-in-loop":
+		body = []Stmt{&While{Cond: flag(), Body: []Stmt{a, &If{Conds: []*Expr{flag()}, Bodies: [][]Stmt{{gotoL}}}, &Break{}, b, &Label{Name: lbl}, c, d}}, &Cmd{Name: L("end")}}
+		others = []*Cmd{a}
+	}
+	prog := &Program{Atoms: atoms, Tops: []interface{}{&Script{Name: sname, Body: body}}}
+	cs := &Case{Name: "c10/unreachable-stretch/" + kind, Prog: prog, Variants: optVariants, NonTrivial: true, Shape: c10Shape{Cmds: []string{"unreachable-stretch:" + kind}}, MaxPaths: 64}
+	cs.Oracle = func(x *OracleCtx) *Violation {
+		stretch := []interp.Value{cat("\t", b.Name.Val()), cat(lbl.Val, ":"), cat("\t", c.Name.Val()), cat("\t", d.Name.Val())}
+		for _, v := range x.Case.Variants {
+			res := x.Res[v.Name]
+			if res.Err.IsErr || res.Err.Panic != "" {
+				return &Violation{Sub: "verbatim", Msg: "variant " + v.Name + " rejected: " + interp.ToString(res.Err.Msg) + res.Err.Panic}
+			}
+			lines := nonBlank(outputLines(res.Out, false))
+			count := func(want interp.Value) (int, int) {
+				n, at := 0, -1
+				for i, l := range lines {
+					if sameValue(x.C, l, want) == 1 {
+						n++
+						at = i
+					}
+				}
+				return n, at
+			}
+			for _, o := range others {
+				if n, _ := count(cat("\t", o.Name.Val())); n != 1 {
+					return &Violation{Sub: "verbatim", Msg: fmt.Sprintf("variant %s: command %s is emitted %d times", v.Name, interp.ToString(o.Name.Val()), n)}
+				}
+			}
+			n, at := count(stretch[0])
+			if n != 1 {
+				return &Violation{Sub: "verbatim", Msg: fmt.Sprintf("variant %s: the first command of the stretch that only a user label leads to (%s) is emitted %d times", v.Name, interp.ToString(stretch[0]), n)}
+			}
+			if at+len(stretch) > len(lines) {
+				return &Violation{Sub: "verbatim", Msg: "variant " + v.Name + ": the stretch is cut short"}
+			}
+			if vv := expectLines(x, "verbatim", "variant "+v.Name+": the stretch after the construct (commands and label in source order, contiguous)", lines[at:at+len(stretch)], stretch); vv != nil {
+				return vv
+			}
+		}
+		return nil
 	}
 	return cs
 }
